@@ -20,6 +20,9 @@ pub struct Known {
     pub version_min: Option<[u8; 2]>,
     #[serde(default)]
     pub version_max: Option<[u8; 2]>,
+    /// at most this many occupied ports in the recording
+    #[serde(default)]
+    pub ports_max: Option<usize>,
     pub what: String,
 }
 
@@ -53,5 +56,6 @@ pub fn matches<'a>(known: &'a [Known], v: &Violation, spec: &ScenarioSpec) -> Op
             && k.msg_contains.as_ref().map_or(true, |s| v.message.contains(s.as_str()))
             && k.version_min.map_or(true, |m| ver >= (m[0], m[1]))
             && k.version_max.map_or(true, |m| ver <= (m[0], m[1]))
+            && k.ports_max.map_or(true, |n| spec.recorder.ports.len() <= n)
     })
 }
